@@ -29,9 +29,9 @@ namespace PV.C08
 open PV PV.Mat PV.Cov PV.Plscf Finset
 
 section perm_plscf
-variable {K : Type} [Field K] [LinearOrder K] [Inhabited K]
+variable {K : Type} [Field K] [LinearOrder K] [IsStrictOrderedRing K] [Inhabited K]
 
-omit [LinearOrder K] [Inhabited K] in
+omit [LinearOrder K] [IsStrictOrderedRing K] [Inhabited K] in
 /-- **Permutation, normal equations.**  `Yo = -kron(Xo, Sy[o])` of the permuted array is the
     regressor of row `ρ o` with its columns moved by `I⊗P`; hence `So`, `To` and — the sum over the
     output rows re-indexed by `ρ`, the inner solves re-indexed — `M' = (I⊗P)·M·(I⊗P)ᵀ`. -/
@@ -52,7 +52,7 @@ theorem C08_perm_plscf_normal (Nch Nref Nf n : Nat) (hN : 0 < Nch) {σ τ ρ ρi
    fun X I J => Mmat_perm hN hσ hρ Nf n Om Sy X I J,
    fun p => blkPerm_permOn hN hσ p⟩
 
-omit [LinearOrder K] [Inhabited K] in
+omit [LinearOrder K] [IsStrictOrderedRing K] [Inhabited K] in
 /-- **Permutation, normal equations (certificate transport).**  What a returned order of the model of
     `pLSCF` certifies for `Sy` (exact inner solves `X`, accumulated `M`, constrained solve `Z`,
     `alpha`, `beta`), it certifies for the permuted array with `X`, `Z` re-indexed,
@@ -75,6 +75,7 @@ theorem C08_perm_plscf_cert (Nch Nref Nf n : Nat) (hi : Bool) (Om : Nat → Plsc
   show (permOut Nch n hi ρ σ out Z).alpha (k * Nch + a) b = out.alpha (k * Nch + σ a) (σ b)
   rw [h2 _ (Plscf.blk_lt hk ha) b hb, blkPerm_add_mul hN, blkPerm_low a ha]
 
+omit [IsStrictOrderedRing K] in
 /-- **Permutation, one order of `pLSCF` (two runs of the model).**  If the model returns for `Sy` and
     for the permuted array and — C05's uniqueness hypotheses, on the first run only — `Ro` and the
     constrained block of `M` are injective, then on the index ranges of the arrays
@@ -117,7 +118,7 @@ theorem C08_perm_plscf_order (Nch Nref Nf n : Nat) (hi : Bool) (Om : Nat → Pls
   intro I hI c hc
   rw [hA I hI c hc, hα I hI c hc]
 
-omit [LinearOrder K] [Inhabited K] in
+omit [LinearOrder K] [IsStrictOrderedRing K] [Inhabited K] in
 /-- **Permutation, `rmfd2ac` (record transport).**  Coefficients related as in
     `C08_perm_plscf_order`.  For every exact record `P` of the solves `np.linalg.solve(Ad_last, Adi)`
     of the original run, the conjugated record `P·P_k·Pᵀ` is an exact record for the permuted
@@ -142,8 +143,8 @@ omit [Inhabited K] in
     eigenpair `(λ, (I⊗P)·q)` of `A'` — the same companion eigenvalues; and for the transported
     records the column `ac2mp_poly` produces has the same `fn`, `xi`, `lam` and NaN pattern, and every
     shape is the shape of the original run permuted by `ρ`.
-    Hypothesis beyond the property's premise: in every kept column the component of largest magnitude of
-    `C·q` is attained once (with a tie `np.argmax` picks the first of the tied components in either order
+    Hypothesis beyond the property's premise: in every column whose shape is not NaN in the original run
+    the component of largest magnitude of `C·q` is attained once (with a tie `np.argmax` picks the first of the tied components in either order
     and the two normalisations differ by the unimodular ratio of the tied components). -/
 theorem C08_perm_plscf_column {l d : Nat} (hl : 0 < l) {ρ ρi π πi : Nat → Nat} (hρ : PermOn l ρ ρi)
     (hπ : PermOn d π πi) (A A' C C' : Mat K) (hr : C.r = l) (hr' : C'.r = l) (hc : C.c = d) (hc' : C'.c = d)
@@ -151,7 +152,7 @@ theorem C08_perm_plscf_column {l d : Nat} (hl : 0 < l) {ρ ρi π πi : Nat → 
     (hC : ∀ o, o < l → ∀ j, j < d → C'.e o j = C.e (ρ o) (π j)) :
     (∀ e : EigIn K, EigPair d A.e e → EigPair d A'.e (permEig π d e)) ∧
     ∀ (sqrt : K → K) (twoPi invdt : K) (cor : Bool) (invTau : K) (eigs : List (EigIn K)),
-      (∀ e ∈ eigs, blanked (lambdOf invdt e) = false → ∀ i, i < l → i ≠ argmaxAbs (phiRaw C e.q) →
+      (∀ e ∈ eigs, phiCell C (lambdOf invdt e) e.q ≠ none → ∀ i, i < l → i ≠ argmaxAbs (phiRaw C e.q) →
         Plscf.Cx.normSq ((phiRaw C e.q).getD i ⟨0, 0⟩)
           < Plscf.Cx.normSq ((phiRaw C e.q).getD (argmaxAbs (phiRaw C e.q)) ⟨0, 0⟩)) →
       ac2mpPoly sqrt twoPi invdt cor invTau C' (eigs.map (permEig π d))
@@ -197,7 +198,7 @@ theorem C08_perm_plscf (Nch Nref Nf n : Nat) (hi : Bool) (Om : Nat → Plscf.Cx 
     (∀ e : EigIn K, EigPair ((n + 1) * Nch) A.e e →
       EigPair ((n + 1) * Nch) A'.e (permEig (blkPerm Nch σ) ((n + 1) * Nch) e)) ∧
     ∀ (sqrt : K → K) (twoPi invdt : K) (cor : Bool) (invTau : K) (eigs : List (EigIn K)),
-      (∀ e ∈ eigs, blanked (lambdOf invdt e) = false → ∀ i, i < Nref → i ≠ argmaxAbs (phiRaw C e.q) →
+      (∀ e ∈ eigs, phiCell C (lambdOf invdt e) e.q ≠ none → ∀ i, i < Nref → i ≠ argmaxAbs (phiRaw C e.q) →
         Plscf.Cx.normSq ((phiRaw C e.q).getD i ⟨0, 0⟩)
           < Plscf.Cx.normSq ((phiRaw C e.q).getD (argmaxAbs (phiRaw C e.q)) ⟨0, 0⟩)) →
       ac2mpPoly sqrt twoPi invdt cor invTau C' (eigs.map (permEig (blkPerm Nch σ) ((n + 1) * Nch)))
@@ -255,7 +256,7 @@ theorem C08_perm_plscf_square (Nch Nf n : Nat) (hi : Bool) (Om : Nat → Plscf.C
     (hac' : rmfd2ac (adOf Nch n out'.alpha) (bnOf Nch Nch n out'.beta) = some (A', C'))
     (sqrt : K → K) (twoPi invdt : K) (cor : Bool) (invTau : K) (eigs : List (EigIn K))
     (hrec : ∀ e ∈ eigs, EigPair ((n + 1) * Nch) A.e e)
-    (huniq : ∀ e ∈ eigs, blanked (lambdOf invdt e) = false → ∀ i, i < Nch → i ≠ argmaxAbs (phiRaw C e.q) →
+    (huniq : ∀ e ∈ eigs, phiCell C (lambdOf invdt e) e.q ≠ none → ∀ i, i < Nch → i ≠ argmaxAbs (phiRaw C e.q) →
         Plscf.Cx.normSq ((phiRaw C e.q).getD i ⟨0, 0⟩)
           < Plscf.Cx.normSq ((phiRaw C e.q).getD (argmaxAbs (phiRaw C e.q)) ⟨0, 0⟩)) :
     (∀ e' ∈ eigs.map (permEig (blkPerm Nch σ) ((n + 1) * Nch)), EigPair ((n + 1) * Nch) A'.e e') ∧
@@ -276,5 +277,131 @@ theorem C08_perm_plscf_square (Nch Nf n : Nat) (hi : Bool) (Om : Nat → Plscf.C
   exact he e (hrec e hm)
 
 end perm_plscf
+
+/-! ## non-vacuity: two channels swapped, order 1, three lines (`Om` of C05's instance) -/
+section examples
+open PV.C05
+
+/-- a full `2 × 2 × 3` spectral array -/
+def pSy : Nat → Nat → Nat → Plscf.Cx Rat := fun o c f =>
+  ⟨((o : Rat) + 1) * ((f : Rat) + 1) + c * c, ((o : Rat) + 2 * c) * f - 1 + o * c⟩
+def pSwp : Nat → Nat := fun a => 1 - a
+theorem pSwpPerm : PermOn 2 pSwp pSwp :=
+  ⟨fun a h => by simp only [pSwp]; omega, fun a h => by simp only [pSwp]; omega,
+   fun a h => by simp only [pSwp]; omega, fun a h => by simp only [pSwp]; omega⟩
+
+/-- a `2 × 2` block with non-zero determinant is injective (the form the hypotheses use) -/
+theorem inj2 (G : Nat → Nat → Rat) (hdet : G 0 0 * G 1 1 - G 0 1 * G 1 0 ≠ 0) (y : Nat → Rat)
+    (h : ∀ I < 2, ∑ J ∈ range 2, G I J * y J = 0) : ∀ J < 2, y J = 0 := by
+  have h0 := h 0 (by decide)
+  have h1 := h 1 (by decide)
+  simp only [Finset.sum_range_succ, Finset.sum_range_zero, zero_add] at h0 h1
+  have e0 : y 0 * (G 0 0 * G 1 1 - G 0 1 * G 1 0) = 0 := by linear_combination G 1 1 * h0 - G 0 1 * h1
+  have e1 : y 1 * (G 0 0 * G 1 1 - G 0 1 * G 1 0) = 0 := by linear_combination G 0 0 * h1 - G 1 0 * h0
+  intro J hJ
+  interval_cases J
+  · exact (mul_eq_zero.mp e0).resolve_right hdet
+  · exact (mul_eq_zero.mp e1).resolve_right hdet
+
+/-- both runs of the model return (`LO` constraint), `rmfd2ac` returns for both, the constrained block of
+    `M` and the leading coefficient `A_1` of the first run are non-singular -/
+theorem ex_perm_runs :
+    ∃ out out' A C A' C', plscfOrder 2 2 3 1 false exOm pSy = some out ∧
+      plscfOrder 2 2 3 1 false exOm (permSy pSwp pSwp pSy) = some out' ∧
+      out.M 2 2 * out.M 3 3 - out.M 2 3 * out.M 3 2 ≠ 0 ∧
+      out.alpha 2 0 * out.alpha 3 1 - out.alpha 2 1 * out.alpha 3 0 ≠ 0 ∧
+      rmfd2ac (adOf 2 1 out.alpha) (bnOf 2 2 1 out.beta) = some (A, C) ∧
+      rmfd2ac (adOf 2 1 out'.alpha) (bnOf 2 2 1 out'.beta) = some (A', C') := by
+  have h1 : ((plscfOrder 2 2 3 1 false exOm pSy).bind fun out =>
+      (rmfd2ac (adOf 2 1 out.alpha) (bnOf 2 2 1 out.beta)).map fun _ =>
+        (decide (out.M 2 2 * out.M 3 3 - out.M 2 3 * out.M 3 2 ≠ 0)
+          && decide (out.alpha 2 0 * out.alpha 3 1 - out.alpha 2 1 * out.alpha 3 0 ≠ 0)))
+        = some true := by decide +kernel
+  have h2 : ((plscfOrder 2 2 3 1 false exOm (permSy pSwp pSwp pSy)).bind fun out' =>
+      (rmfd2ac (adOf 2 1 out'.alpha) (bnOf 2 2 1 out'.beta)).map fun _ => true) = some true := by
+    decide +kernel
+  cases ho : plscfOrder 2 2 3 1 false exOm pSy with
+  | none => rw [ho] at h1; simp at h1
+  | some out =>
+    rw [ho] at h1
+    simp only [Option.bind_some] at h1
+    cases hac : rmfd2ac (adOf 2 1 out.alpha) (bnOf 2 2 1 out.beta) with
+    | none => rw [hac] at h1; simp at h1
+    | some AC =>
+      rw [hac] at h1
+      simp only [Option.map_some, Option.some.injEq, Bool.and_eq_true, decide_eq_true_eq] at h1
+      cases ho' : plscfOrder 2 2 3 1 false exOm (permSy pSwp pSwp pSy) with
+      | none => rw [ho'] at h2; simp at h2
+      | some out' =>
+        rw [ho'] at h2
+        simp only [Option.bind_some] at h2
+        cases hac' : rmfd2ac (adOf 2 1 out'.alpha) (bnOf 2 2 1 out'.beta) with
+        | none => rw [hac'] at h2; simp at h2
+        | some AC' => exact ⟨out, out', AC.1, AC.2, AC'.1, AC'.2, rfl, rfl, h1.1, h1.2, hac, hac'⟩
+
+-- every hypothesis of `C08_perm_plscf_order`, `C08_perm_plscf`, `C08_perm_plscf_square` and of the
+-- certificate transport holds jointly on this instance
+example : True := by
+  obtain ⟨out, out', A, C, A', C', h, h', hM, hA, hac, hac'⟩ := ex_perm_runs
+  have hinj : ∀ y : Nat → Rat, (∀ I < 1 * 2, ∑ J ∈ range (1 * 2),
+      (if false = true then out.M I J else out.M (2 + I) (2 + J)) * y J = 0) → ∀ J < 1 * 2, y J = 0 := by
+    intro y hy
+    exact inj2 (fun I J => out.M (2 + I) (2 + J)) hM y
+      (by simpa only [Bool.false_eq_true, if_false, Nat.one_mul] using hy)
+  have hAinj : ∀ y : Nat → Rat,
+      (∀ a < 2, ∑ t ∈ range 2, out.alpha (1 * 2 + a) t * y t = 0) → ∀ t < 2, y t = 0 := by
+    intro y hy
+    exact inj2 (fun a t => out.alpha (1 * 2 + a) t) hA y hy
+  have := C08_perm_plscf_order 2 2 3 1 false exOm pSy (by decide) pSwpPerm pSwpPerm out out' h h'
+    ex_Ro_inj hinj
+  have := C08_perm_plscf 2 2 3 1 false exOm pSy (by decide) (by decide) pSwpPerm pSwpPerm out out' h h'
+    ex_Ro_inj hinj hAinj A C A' C' hac hac'
+  have := C08_perm_plscf_square 2 3 1 false exOm pSy (by decide) pSwpPerm out out' h h'
+    ex_Ro_inj hinj hAinj A C A' C' hac hac' (fun x => x) 6 100 false 0 [] (by simp) (by simp)
+  obtain ⟨X, Z, cert⟩ := plscfOrder_sound 2 2 3 1 false exOm pSy out h
+  have := C08_perm_plscf_cert 2 2 3 1 false exOm pSy out X Z cert (by decide) pSwpPerm pSwpPerm
+  obtain ⟨P, rc⟩ := rmfd2ac_cert 2 2 1 out.alpha out.beta A C hac
+  have := C08_perm_plscf_rmfd 2 2 1 (by decide) pSwp pSwpPerm out.alpha
+    (fun I c => out.alpha (blkPerm 2 pSwp I) (pSwp c)) out.beta
+    (fun o t c => out.beta (pSwp o) t (pSwp c)) (fun _ _ _ _ => rfl) (fun _ _ _ _ _ _ => rfl) P A C rc
+  trivial
+
+example := C08_perm_plscf_normal (K := Rat) 2 2 3 1 (by decide) pSwpPerm pSwpPerm exOm pSy
+
+/-! ### eigen-record and column: a `2 × 2` state matrix with the recorded pair `(2, e₀)`, kept column with a
+    unique largest component -/
+def cA : Mat Rat := ⟨2, 2, fun i j => if i = j then (if i = 0 then 2 else 3) else 0⟩
+def cA' : Mat Rat := ⟨2, 2, fun i j => if i = j then (if i = 0 then 3 else 2) else 0⟩
+def cC : Mat Rat := ⟨2, 2, fun i j => ([[1, 2], [3, 4]] : List (List Rat)).getD i [] |>.getD j 0⟩
+def cC' : Mat Rat := ⟨2, 2, fun i j => ([[4, 3], [2, 1]] : List (List Rat)).getD i [] |>.getD j 0⟩
+def cE : EigIn Rat := ⟨⟨2, 0⟩, ⟨-1, 2⟩, [⟨1, 0⟩, ⟨0, 0⟩]⟩
+
+theorem cE_pair : EigPair 2 cA.e cE := by
+  refine ⟨rfl, ?_⟩
+  intro i hi
+  interval_cases i <;> decide +kernel
+
+example : True := by
+  have hA : ∀ i, i < 2 → ∀ j, j < 2 → cA'.e i j = cA.e (pSwp i) (pSwp j) := by decide
+  have hC : ∀ o, o < 2 → ∀ j, j < 2 → cC'.e o j = cC.e (pSwp o) (pSwp j) := by decide +kernel
+  obtain ⟨h1, h2⟩ := C08_perm_plscf_column (K := Rat) (l := 2) (d := 2) (by decide) pSwpPerm pSwpPerm
+    cA cA' cC cC' rfl rfl rfl rfl hA hC
+  have := h1 cE cE_pair
+  have hu : ∀ e ∈ [cE], phiCell cC (lambdOf (1 : Rat) e) e.q ≠ none → ∀ i, i < 2 → i ≠ argmaxAbs (phiRaw cC e.q) →
+      Plscf.Cx.normSq ((phiRaw cC e.q).getD i ⟨0, 0⟩)
+        < Plscf.Cx.normSq ((phiRaw cC e.q).getD (argmaxAbs (phiRaw cC e.q)) ⟨0, 0⟩) := by
+    intro e he _
+    rw [List.mem_singleton.mp he]
+    decide +kernel
+  have := h2 (fun x => x) 6 1 false 0 [cE] hu
+  trivial
+
+-- the kept column of the instance is not NaN, and the permuted run reports the permuted shape
+example : (ac2mpPoly (fun x => x) (6 : Rat) 1 false 0 cC' ([cE].map (permEig pSwp 2))).phi
+    = [some [⟨1, 0⟩, ⟨1/3, 0⟩]] ∧
+    (ac2mpPoly (fun x => x) (6 : Rat) 1 false 0 cC [cE]).phi = [some [⟨1/3, 0⟩, ⟨1, 0⟩]] := by
+  decide +kernel
+
+end examples
 
 end PV.C08
